@@ -13,6 +13,15 @@ def P(src, variant, name, args=None, tiers=('quick', 'thorough'), tier_args=None
 
 
 CHECKS = {
+    'C12': {
+        'engine': 'seqx',
+        'rule': 'Value operation histories vs abstract document model',
+        'parts': [
+            P('props/C12.cpp', 'asan', 'value-asan', tier_args={'quick': ['--depth', '2'], 'thorough': ['--depth', '3', '--cap', '400000']}),
+            P('props/C12.cpp', 'fast', 'value-fast', tier_args={'quick': ['--depth', '3'], 'thorough': ['--depth', '4']}),
+        ],
+        'floor': {'quick': 1000, 'thorough': 1000},
+    },
     'C15': {
         'engine': 'langx',
         'rule': 'exhaustive pairs/triples of small strings and values; all small arrays through every sort',
